@@ -535,6 +535,7 @@ func judge2(v harness.Verdict, c Case2, out Out2) harness.Verdict {
 	if c.NoRootCheck {
 		v.Class("root-check-disabled")
 	}
+	v.Class(lifetimeClass(c.Life)...)
 	anyBad, anyFiltered := false, false
 	for si, s := range c.Subs {
 		o := out.Subs[si]
